@@ -322,19 +322,30 @@ func checkC13Nested(c c13NestedCase) (ci caseInfo, err error) {
 type c13ExpandCase struct {
 	Trailing int `json:"trailing"` // entries after the ellipsis
 	Repeat   int `json:"repeat"`
+	// Nested: the expanded list is the second child of an outer list <L <U1 1> <L <B> ... > > - a list is checked against the
+	// limit wherever it sits
+	Nested bool `json:"nested,omitempty"`
 }
 
 func init() { registerReplay("c13expand", checkC13Expand) }
 
 func checkC13Expand(c c13ExpandCase) (ci caseInfo, err error) {
 	ci.Nontrivial = true
-	ci.Key = fmt.Sprintf("expand/%d/%d", c.Trailing, c.Repeat)
+	ci.Key = fmt.Sprintf("expand/%d/%d/%v", c.Trailing, c.Repeat, c.Nested)
 	ci.label("expansion-route")
+	if c.Nested {
+		ci.label("expansion-route:nested-list")
+	}
 	args := []interface{}{ast.NewBinaryNode(), "..."}
 	for i := 0; i < c.Trailing; i++ {
 		args = append(args, ast.NewBinaryNode())
 	}
 	tmpl := ast.NewListNode(args...)
+	var outerHdr []byte
+	if c.Nested {
+		tmpl = ast.NewListNode(ast.NewUintNode(1, 1), tmpl)
+		outerHdr = []byte{0x01, 0x02, 0xA5, 0x01, 0x01}
+	}
 	want := c.Repeat + 1 + c.Trailing
 	var res ast.ItemNode
 	panicked, msg := try(func() { res = tmpl.FillVariables(map[string]interface{}{"...": c.Repeat}) })
@@ -343,8 +354,13 @@ func checkC13Expand(c c13ExpandCase) (ci caseInfo, err error) {
 	}
 	if !panicked {
 		lh, _ := refHeader(model.L, want)
-		if res.Size() != want || !bytes.HasPrefix(res.ToBytes(), lh) || len(res.ToBytes()) != len(lh)+2*want {
-			return ci, fmt.Errorf("expanded list has Size %d, %d bytes; want %d entries, header %x", res.Size(), len(res.ToBytes()), want, lh)
+		lh = append(append([]byte{}, outerHdr...), lh...)
+		size := want
+		if c.Nested {
+			size = 2
+		}
+		if b := res.ToBytes(); res.Size() != size || !bytes.HasPrefix(b, lh) || len(b) != len(lh)+2*want {
+			return ci, fmt.Errorf("expanded list (nested=%v) has Size %d, %d bytes; want %d entries, header %x", c.Nested, res.Size(), len(b), want, lh)
 		}
 	}
 	return ci, nil
@@ -452,7 +468,8 @@ func TestC13Items(t *testing.T) {
 			runCase[c13NestedCase](t, "C13", "c13nested", checkC13Nested, c)
 		}
 	}
-	expands := []c13ExpandCase{{Trailing: 63, Repeat: 300000}, {Trailing: 15, Repeat: 1100000}, {Trailing: 0, Repeat: 70000}, {Trailing: 3, Repeat: 0}, {Trailing: 200, Repeat: 90000}}
+	expands := []c13ExpandCase{{Trailing: 63, Repeat: 300000}, {Trailing: 15, Repeat: 1100000}, {Trailing: 0, Repeat: 70000}, {Trailing: 3, Repeat: 0}, {Trailing: 200, Repeat: 90000},
+		{Trailing: 2, Repeat: 65533, Nested: true}, {Trailing: 0, Repeat: 254, Nested: true}, {Trailing: 0, Repeat: model.MaxLen, Nested: true}, {Trailing: 0, Repeat: model.MaxLen, Nested: false}}
 	if isThorough() {
 		expands = append(expands, c13ExpandCase{Trailing: 0, Repeat: model.MaxLen - 1}, c13ExpandCase{Trailing: 0, Repeat: model.MaxLen}, c13ExpandCase{Trailing: 2, Repeat: model.MaxLen - 2})
 	}
